@@ -25,11 +25,21 @@ class Den:
         self.ode_env = None  # environment at the ODE system
 
 
+class DenoteError(Exception):
+    """the statement list cannot be interpreted by the reference (sympy limitation): the program is skipped."""
+
+
 def _subs(expr, env):
     e = to_sympy(expr)
     if not env:
         return e
-    return e.xreplace(env)
+    try:
+        return e.xreplace(env)
+    except Exception:  # noqa -- e.g. sympy refuses a Piecewise without default inside a condition
+        try:
+            return e.subs(env, simultaneous=True)
+        except Exception as ex:  # noqa
+            raise DenoteError(f'{type(ex).__name__}: {ex}'[:200])
 
 
 def denote(statements, upto=None):
